@@ -30,6 +30,15 @@ def make_scratch(root, edits):
             if fn.endswith(".py"):
                 shutil.copy(os.path.join(src, fn), os.path.join(dst, fn))
     for e in edits:
+        if e[0] == "@unparse_all":
+            import ast as _ast
+            for pkg in PACKAGES:
+                for fn in os.listdir(os.path.join(d, pkg)):
+                    if fn.endswith(".py"):
+                        pth = os.path.join(d, pkg, fn)
+                        txt = _ast.unparse(_ast.parse(open(pth).read())) + "\n"
+                        open(pth, "w").write(txt)
+            continue
         if e[0] == "@rename_locals":
             ok = rename_locals(os.path.join(d, e[1]), e[2])
             if not ok:
@@ -106,6 +115,8 @@ def run_variant(v):
     try:
         import ast
         for e in v["edits"]:
+            if e[0] == "@unparse_all":
+                continue
             rel = e[1] if e[0] == "@rename_locals" else e[0]
             ast.parse(open(os.path.join(d, rel)).read())
         buf = io.StringIO()
